@@ -199,6 +199,17 @@ def instances(tier, rng):
             r["proutes"] = list(u["proutes"]) + [part]
             r["pweights"] = list(u["pweights"]) + [w]
             insts.append(r)
+    # an IGNORED edge shared by two heavy cycles, on the way of one light walk: that walk has to cross the ignored edge once per
+    # unit of cycle flow (2F + 1 times) - far more often than any flow value of the instance
+    for F in ((4, 10) if quick else (3, 4, 7, 10, 12)):
+        E = [["s", "a"], ["a", "b"], ["b", "t"], ["b", "c1"], ["c1", "a"], ["b", "c2"], ["c2", "a"]]
+        walk = ["s", "a", "b"] + ["c1", "a", "b"] * F + ["c2", "a", "b"] * F + ["t"]
+        for cls in ("kFlowDecompCycles", "MinFlowDecompCycles"):
+            r = {"cls": cls, "mode": "edge", "nodes": ["s", "a", "b", "t", "c1", "c2"], "edges": E, "ew": [1, 2 * F + 1, 1, F, F, F, F],
+                 "wt": "int", "ign": [["a", "b"]], "expect_solved": True, "proutes": [walk], "pweights": [1]}
+            if cls == "kFlowDecompCycles":
+                r["k"] = 1
+            insts.append(r)
     # cyclic error models: a subset constraint that lists a ZERO-flow edge next to positive ones, at a fraction that is met
     # without it (2 edges at 1/2, 4 at 3/4): using the zero edge only costs error, so it must stay optional
     zc = [u for u in vlib.universe("cyc", 3, maxe=9, k=2, w=2, l=1, cap=6, zero=True) if 0 in u["ew"]]
